@@ -23,7 +23,7 @@
     booleans = Python truthiness of the cell). *)
 From Coq Require Import ZArith List Bool.
 From Coq Require Import PrimFloat FloatOps.
-From NS Require Import Base.FloatBridge.
+From NS Require Import Base.FloatBridge Gen.G18.
 Import ListNotations.
 Local Open Scope Z_scope.
 
@@ -373,10 +373,10 @@ Definition onsets2s (fps dur : flt) (min_midi_pitch : Z) (onsets : list (list bo
        (nonzero_cells 0 onsets)).
 
 (** ** The grid round trip: roll -> notes -> roll (defaults: occupancy 0, window
-    mode, no blank frame, overlap, velocity 70 <= 127) *)
+    mode, no blank frame, overlap; constants regenerated from the code in Gen/G18.v) *)
 Definition grid_cfg (fps total : flt) (mn cols : Z) : s2p_cfg :=
-  {| c_fps := fps; c_occ := zero; c_min_pitch := mn; c_max_pitch := mn + cols - 1; c_max_vel := 127;
-     c_blank := false; c_window := 3; c_onset_len_ms := zero; c_offset_len_ms := zero;
+  {| c_fps := fps; c_occ := zero; c_min_pitch := mn; c_max_pitch := mn + cols - 1; c_max_vel := MAX_MIDI_VELOCITY;
+     c_blank := false; c_window := ONSET_WINDOW; c_onset_len_ms := zero; c_offset_len_ms := zero;
      c_mode := 0; c_delay_ms := zero; c_overlap := true; c_total := total |}.
 
 Definition snote_of (v : Z) (d : dnote) : snote :=
@@ -384,7 +384,7 @@ Definition snote_of (v : Z) (d : dnote) : snote :=
 
 Definition grid_roundtrip (fps : flt) (mn : Z) (frames : list (list bool)) : list (list bool) :=
   let '(total, notes) := p2s fps zero mn frames None None in
-  active_roll (grid_cfg fps total mn (Z.of_nat (width frames))) (map (snote_of 70) notes).
+  active_roll (grid_cfg fps total mn (Z.of_nat (width frames))) (map (snote_of DEFAULT_DECODE_VELOCITY) notes).
 
 (* frame index arithmetic is exact at frame i *)
 Definition frame_exact (fps : flt) (i : Z) : bool :=
